@@ -13,18 +13,9 @@ kapacitor_loopback.go). "For all schedules" = for every list of actions (`run` s
 enabled, so every list is a schedule and every interleaving of the goroutines is some list); no bound on the
 number of points, on the edge buffer size, or on the length of the chain.
 -/
-import Kap.Proofs.C07Lossless
-import Kap.Spec.C07
+import Kap.Proofs.C07Outcome
 namespace Kap.Props.C07
 open Kap.C07
-
-/-- What an outside observer sees of a model state (the record the spec talks about). -/
-def outcomeOf (s : State) : Outcome :=
-  { accepted := s.accepted
-    returned := s.ph = .finished
-    leaked := (s.nodes.filter (fun nd => !nd.done)).length + (s.nodes.filter (fun nd => !nd.helperDone)).length + (if s.thrDone then 0 else 1)
-    delivered := (s.nodes.filter (fun nd => match nd.kind with | .post | .alert _ | .influx _ => true | _ => false)).map (·.deliv)
-    nodeFailed := s.nodes.any (·.failed) }
 
 /-! ### Exact accounting, for every pipeline, every schedule, every moment -/
 
@@ -84,44 +75,7 @@ theorem stop_delivers_all_partial (cfg : Cfg) (kinds : List Kind) (n : Nat) (sch
     s.stopped = true → holds (outcomeOf s) = true ∧ (outcomeOf s).delivered.all (· = s.accepted) = true := by
   intro s hst
   have hl : Lossless n cfg s := lossless_run (lossless_init cfg kinds n hclose hk) sched
-  have hent := lossless_stopped_ent hl hst
-  have hst' := hst
-  simp only [State.stopped, decide_eq_true_eq, List.all_eq_true] at hst'
-  have hst' : s.ph = Ph.finished ∧ s.thrDone = true ∧ ∀ (x : Nd), x ∈ s.nodes → x.done = true ∧ x.helperDone = true := hst'
-  have hdel : (outcomeOf s).delivered.all (· = s.accepted) = true := by
-    simp only [outcomeOf, List.all_eq_true, List.mem_map, List.mem_filter, decide_eq_true_eq]
-    rintro d ⟨nd, ⟨hmem, hkind⟩, rfl⟩
-    obtain ⟨j, hj⟩ := List.getElem?_of_mem hmem
-    have hg := (hent j nd hj).2
-    have hb := hl.cons.nodeOut j nd hj
-    have hL := hl.nodes j nd hj
-    have hd := hst'.2.2 nd hmem
-    have hkl := hL.kind
-    unfold balOut at hb
-    cases hkk : nd.kind with
-    | post => rw [hkk] at hb; simp only at hb; omega
-    | alert H =>
-      -- the handler goroutine has exited, so its queue is empty; nothing overflowed
-      rw [hkk] at hb; simp only at hb
-      have := hL.helpq ⟨H, hkk⟩ hd.2
-      have := hL.nolost
-      omega
-    | influx B => rw [hkk] at hkl; simp [losslessKind] at hkl
-    | pass => rw [hkk] at hkind; simp at hkind
-    | udf => rw [hkk] at hkind; simp at hkind
-    | fail K => rw [hkk] at hkind; simp at hkind
-    | loop => rw [hkk] at hkind; simp at hkind
-  refine ⟨?_, hdel⟩
-  simp only [holds, stopCompletes, allExited, allDelivered, Bool.and_eq_true, Bool.or_eq_true, decide_eq_true_eq]
-  refine ⟨⟨?_, ?_⟩, Or.inr hdel⟩
-  · simp [outcomeOf, hst'.1]
-  · have h1 : (s.nodes.filter (fun nd => !nd.done)).length = 0 := by
-      rw [List.length_eq_zero_iff, List.filter_eq_nil_iff]
-      intro nd hm; simp [(hst'.2.2 nd hm).1]
-    have h2 : (s.nodes.filter (fun nd => !nd.helperDone)).length = 0 := by
-      rw [List.length_eq_zero_iff, List.filter_eq_nil_iff]
-      intro nd hm; simp [(hst'.2.2 nd hm).2]
-    simp [outcomeOf, h1, h2, hst'.2.1]
+  exact ⟨lossless_holds hl hst, lossless_delivered hl hst⟩
 
 /-- Non-vacuity: a concrete schedule of `stream → from → httpPost → alert` with 2 points, stopped by Close with
 a backlog in the pipeline, reaches a stopped state (and both outputs got both points). -/
@@ -135,6 +89,90 @@ example :
     .node 3 .init, .node 3 .handle, .node 3 .put, .node 3 .take, .node 2 .put, .node 2 .take, .node 1 .put, .node 1 .take,
     .node 0 .put, .node 0 .take, .node 0 .exit, .node 1 .exit, .node 2 .exit, .node 3 .closeOut, .node 3 .helperExit, .node 3 .exit]
   exact ⟨[.write, .forkTake, .write] ++ (List.replicate 16 round).flatten, by decide, by decide⟩
+
+/-! ### The stop always completes -/
+
+/-- **Every enabled action strictly decreases a natural-number measure** — for EVERY configuration (also the
+ones with loopback nodes and the code before the repairs): no schedule is infinite, whatever the scheduler
+does; no fairness is assumed. -/
+theorem every_action_decreases_measure (cfg : Cfg) (s s' : State) (a : Act) (h : step cfg s a = some s') :
+    mu s' < mu s :=
+  mu_step h
+
+/-- … hence a schedule of enabled actions is never longer than the measure of its first state. -/
+theorem schedules_are_bounded (cfg : Cfg) (s s' : State) (sched : List Act) (h : runStrict cfg s sched = some s') :
+    sched.length + mu s' ≤ mu s :=
+  runStrict_length h
+
+/-- The full-strength termination statement: in every reachable state of every pipeline in which no action is
+enabled, the stop has returned and all goroutines are gone. FALSE for loopback nodes under StopTask
+(`loopback_stop_deadlocks`), hence only stated. -/
+def stop_terminates_stmt : Prop :=
+  ∀ (cfg : Cfg) (kinds : List Kind) (n : Nat) (sched : List Act),
+    cfg.hookLock = false → cfg.alertLeak = false → 1 ≤ cfg.cap → kinds ≠ [] →
+    let s := run cfg (init kinds n) sched
+    Quiescent cfg s → s.stopped = true
+
+/-- **No deadlock, no leak**: any chain of pass / httpPost / alert / influxDBOut / UDF / FAILING nodes (no
+loopback node), any edge buffer size ≥ 1, any number of points, StopTask or Close requested at ANY moment, ANY
+schedule: a state in which no goroutine can move is a state in which the stop has returned and every node
+goroutine, write-buffer goroutine, handler goroutine and the throughput goroutine has exited. Together with
+`every_action_decreases_measure`: every schedule ends, after at most `mu (init …)` steps, and it ends there. -/
+theorem stop_terminates (cfg : Cfg) (kinds : List Kind) (n : Nat) (sched : List Act)
+    (hhook : cfg.hookLock = false) (hleak : cfg.alertLeak = false) (hcap : 1 ≤ cfg.cap) (hne : kinds ≠ [])
+    (hk : ∀ k ∈ kinds, isLoop k = false) :
+    let s := run cfg (init kinds n) sched
+    Quiescent cfg s →
+      s.stopped = true ∧ stopCompletes (outcomeOf s) = true ∧ allExited (outcomeOf s) = true := by
+  intro s hq
+  have hd : DInv s := dinv_run hleak (dinv_init kinds n hk) sched
+  have hlen : s.nodes ≠ [] := by
+    intro h0
+    have := run_nodes_length (cfg := cfg) (s := init kinds n) sched
+    have h1 : s.nodes.length = 0 := by rw [h0]; rfl
+    have h2 : (init kinds n).nodes.length = kinds.length := by simp [init]
+    have : kinds.length = 0 := by rw [← h2, ← this]; exact h1
+    exact hne (List.length_eq_zero_iff.mp this)
+  rcases progress_or_stopped hd hcap hhook hleak hlen with hp | hst
+  · exact absurd hp (quiescent_not_progress hq)
+  · exact ⟨hst, stopped_terminated hst⟩
+
+/-- **A node failing in the middle of the pipeline**: the remaining nodes still terminate — when a node's runF
+has returned an error (a UDF process died, a child edge was aborted …) and nothing can move any more, the stop
+has returned and every goroutine of the task is gone: the property holds of what the observer sees. -/
+theorem others_still_terminate (cfg : Cfg) (kinds : List Kind) (n : Nat) (sched : List Act)
+    (hhook : cfg.hookLock = false) (hleak : cfg.alertLeak = false) (hcap : 1 ≤ cfg.cap) (hne : kinds ≠ [])
+    (hk : ∀ k ∈ kinds, isLoop k = false) :
+    let s := run cfg (init kinds n) sched
+    Quiescent cfg s → s.nodes.any (·.failed) = true → holds (outcomeOf s) = true := by
+  intro s hq hf
+  have h := stop_terminates cfg kinds n sched hhook hleak hcap hne hk hq
+  exact holds_of h.2.1 h.2.2 (allDelivered_of_failed hf)
+
+/-- Non-vacuity of `others_still_terminate`: `stream → httpPost → failing node (after 1 message) → httpPost`, 3
+points: a schedule reaches a quiescent state in which a node has failed (the upstream httpPost was handed
+all 3 points, the downstream one only 1). -/
+example :
+    let cfg : Cfg := { cap := 1, viaClose := false, hookLock := false, alertLeak := false }
+    let kinds := [Kind.pass, .post, .fail 1, .post]
+    ∃ sched, enabledActs cfg (run cfg (init kinds 3) sched) = [] ∧ (run cfg (init kinds 3) sched).nodes.any (·.failed) = true ∧
+      (outcomeOf (run cfg (init kinds 3) sched)).delivered = [3, 1] := by
+  let round : List Act := [.write, .forkTake, .forkLock, .forkPut, .forkDrop, .thrExit,
+    .node 3 .put, .node 3 .take, .node 2 .put, .node 2 .take, .node 1 .put, .node 1 .putErr, .node 1 .take,
+    .node 0 .put, .node 0 .putErr, .node 0 .take, .node 2 .exit, .node 1 .exit, .node 0 .exit, .node 3 .exit]
+  exact ⟨(List.replicate 6 round).flatten ++ (List.replicate 14 (round ++ [.stop])).flatten, by decide, by decide, by decide⟩
+
+/-- **Graceful stop, complete**: for the chains of `stop_delivers_all_partial` every schedule that cannot be
+extended ends in a state of which the WHOLE property holds (stop returned, no goroutine left, every output was
+handed every accepted point). -/
+theorem close_stops_and_delivers (cfg : Cfg) (kinds : List Kind) (n : Nat) (sched : List Act)
+    (hhook : cfg.hookLock = false) (hleak : cfg.alertLeak = false) (hcap : 1 ≤ cfg.cap) (hne : kinds ≠ [])
+    (hclose : cfg.viaClose = true) (hk : ∀ k ∈ kinds, losslessKind n k = true) :
+    let s := run cfg (init kinds n) sched
+    Quiescent cfg s → holds (outcomeOf s) = true := by
+  intro s hq
+  have h := stop_terminates cfg kinds n sched hhook hleak hcap hne (fun k hm => losslessKind_not_loop (hk k hm)) hq
+  exact (stop_delivers_all_partial cfg kinds n sched hclose hk h.1).1
 
 /-! ### Counterexamples: where the code violates the property (each replayed on the real code by the corpus) -/
 
